@@ -61,6 +61,7 @@ type Exec struct {
 	closureID int64
 	global0   map[types.Object]*Term
 	notes     []string
+	pendingCaptured map[string]Val
 	captured  []*types.Var // for function literals verified on their own: variables of the enclosing function
 	fieldAsg  map[types.Object]map[int]bool
 	scopes    []*frameScope
@@ -374,14 +375,15 @@ func (x *Exec) doReturn(st *State, vals []Val, pos token.Pos) {
 	// witnesses: ghost results defined at particular returns
 	wit := map[string]Val{}
 	for _, w := range x.fc.Witnesses {
-		if _, done := wit[w.Name]; done && w.Anchor != fmt.Sprintf("ret%d", rn) {
+		wn := strings.TrimSuffix(w.Name, ":float")
+		if _, done := wit[wn]; done && w.Anchor != fmt.Sprintf("ret%d", rn) {
 			continue
 		}
 		if w.Anchor == fmt.Sprintf("ret%d", rn) {
 			wenv := x.invEnv(st, pos, nil)
-			wit[w.Name] = wenv.eval(w.E)
-		} else if _, done := wit[w.Name]; !done {
-			wit[w.Name] = Val{T: x.sym.Fresh("wit_"+w.Name, SInt), Ty: tyInt}
+			wit[wn] = wenv.eval(w.E)
+		} else if _, done := wit[wn]; !done {
+			wit[wn] = x.freshWitness(w)
 		}
 	}
 	baseLook := look
@@ -433,6 +435,15 @@ func (x *Exec) cellsEqual(hn string, h1, h0 *Term, k BoundVar, kt, cond *Term) *
 		return Forall([]BoundVar{k, j}, Implies(cond, Eq(Select(Select(h1, kt), jt), Select(Select(h0, kt), jt))))
 	}
 	return Forall([]BoundVar{k}, Implies(cond, Eq(Select(h1, kt), Select(h0, kt))))
+}
+
+// freshWitness: an unconstrained witness value (int by default; a witness
+// declared as  name:float  is a float of the function's model).
+func (x *Exec) freshWitness(w WitnessDef) Val {
+	if strings.HasSuffix(w.Name, ":float") {
+		return Val{T: x.sym.Fresh("wit_"+sanitize(w.Name), x.model.Float), Ty: tyFloat}
+	}
+	return Val{T: x.sym.Fresh("wit_"+w.Name, SInt), Ty: tyInt}
 }
 
 // retOrdinal: ordinal of the return statement at pos in source order
